@@ -189,3 +189,248 @@ def all_sequences(alphabet, maxlen):
     for n in range(1, maxlen + 1):
         for seq in itertools.product(alphabet, repeat=n):
             yield list(seq)
+
+
+# ======================================================================================================================
+# Histories on ONE enforcer (C01/C08 strata "history-*" and "context-p2").
+#
+# The property quantifies over "every model, policy and request": what enforce / enforce_ex / batch_enforce answer is a
+# function of the CURRENT model, policy, role links, enabled flag and request - not of which requests were asked
+# before, which of them raised, which entry point was used, which enforcer class of the library holds the policy, or
+# which role-manager object currently holds the links.  A history is a list of steps on one freshly built enforcer;
+# every "ask" step is judged against the spec evaluated on the state the management calls have produced so far.
+#
+# model descriptor md = dict(kind, effect, effect2, has_eft, fn)
+#   kind "acl"  : the C01 model (r.sub == p.sub && r.obj == p.obj && <act>)
+#   kind "rbac" : the same with a role definition g = _, _ and g(r.sub, p.sub) for the subject
+#   kind "two"  : second definitions r2 / p2 / e2 / m2 beside r / p / e / m (selected through an EnforceContext)
+#   <act> is r.act == p.act, or probe(p.act, r.act) when md["fn"]
+# steps: ["add", ptype, rule] ["remove", ptype, rule] ["clear"] ["enable", bool] ["add_g", [user, role]]
+#        ["remove_g", [user, role]] ["swap_rm"] (set_role_manager(fresh manager) + build_role_links) ["build_links"]
+#        ["ask", entry, ctx, [request, ...]]  entry in enforce_ex / enforce / batch_enforce; ctx None or
+#        dict(r=, p=, e=, m=) naming the definitions of an EnforceContext
+TWO_MODEL = """
+[request_definition]
+r = sub, obj, act
+r2 = sub, obj, act
+
+[policy_definition]
+p = {pdef}
+p2 = {pdef}
+
+[policy_effect]
+e = {effect}
+e2 = {effect2}
+
+[matchers]
+m = r.sub == p.sub && r.obj == p.obj && {act}
+m2 = r2.sub == p2.sub && r2.obj == p2.obj && {act2}
+"""
+
+RBAC_MODEL = """
+[request_definition]
+r = sub, obj, act
+
+[policy_definition]
+p = {pdef}
+
+[role_definition]
+g = _, _
+
+[policy_effect]
+e = {effect}
+
+[matchers]
+m = g(r.sub, p.sub) && r.obj == p.obj && {act}
+"""
+
+
+def model_text(md):
+    pdef = "sub, obj, act, eft, tag" if md["has_eft"] else "sub, obj, act, tag"
+    if md["kind"] == "acl":
+        return MODEL.format(pdef=pdef, effect=md["effect"], e2="", matcher=FN_MATCHER if md["fn"] else PLAIN_MATCHER)
+    if md["kind"] == "rbac":
+        return RBAC_MODEL.format(pdef=pdef, effect=md["effect"], act="probe(p.act, r.act)" if md["fn"] else "r.act == p.act")
+    return TWO_MODEL.format(pdef=pdef, effect=md["effect"], effect2=md["effect2"],
+                            act="probe(p.act, r.act)" if md["fn"] else "r.act == p.act",
+                            act2="probe(p2.act, r2.act)" if md["fn"] else "r2.act == p2.act")
+
+
+def build_enforcer(flavour, order, md):
+    """a FRESH enforcer of one of the library's enforcer classes on the model md (no adapter)"""
+    from casbin.model.model_fast import FastModel
+    m = FastModel(list(order)) if (flavour == "FastEnforcer" and order) else Model()
+    m.load_model_from_text(model_text(md))
+    if flavour == "FastEnforcer":
+        e = casbin.FastEnforcer(m, cache_key_order=list(order) if order else None)
+    elif flavour == "SyncedEnforcer":
+        e = casbin.SyncedEnforcer(m)
+    else:
+        e = casbin.Enforcer(m)
+    if md["fn"]:
+        e.add_function("probe", probe)
+    return e
+
+
+def reachable(grouping, a, b):
+    """g(a, b) for g = _, _ : equal names, or b reachable from a over the current assignments (the harness keeps
+    every graph below the role manager's depth bound of 10)"""
+    if a == b:
+        return True
+    seen, todo = {a}, [a]
+    while todo:
+        x = todo.pop()
+        for r in grouping:
+            if len(r) >= 2 and r[0] == x and r[1] not in seen:
+                if r[1] == b:
+                    return True
+                seen.add(r[1])
+                todo.append(r[1])
+    return False
+
+
+def rule_outcome(rule, req, md, grouping=()):
+    """outcome code of ONE stored rule for ONE request (of the right arity), by evaluating the harness's own matcher
+    directly: this is the 'rules whose matcher is true for the request' of the property for these fixed matchers"""
+    if len(rule) != (5 if md["has_eft"] else 4):
+        return BADSIZE
+    sub_ok = reachable(grouping, req[0], rule[0]) if md["kind"] == "rbac" else req[0] == rule[0]
+    if not (sub_ok and req[1] == rule[1]):
+        return NOMATCH                                  # && short-circuits: the act conjunct is not evaluated
+    if md["fn"]:
+        v = probe(rule[2], req[2])
+        if isinstance(v, bool):
+            hit = v
+        elif isinstance(v, float):
+            hit = v != 0
+        else:
+            return BADTYPE
+    else:
+        hit = req[2] == rule[2]
+    if not hit:
+        return NOMATCH
+    if not md["has_eft"]:
+        return MALLOW
+    return MALLOW if rule[3] == "allow" else MDENY if rule[3] == "deny" else MOTHER
+
+
+def empty_match(req, md):
+    """the matcher judged against empty rule fields"""
+    if len(req) != 3 or req[0] != "" or req[1] != "":
+        return False
+    if md["fn"]:
+        v = probe("", req[2])
+        return bool(v)
+    return req[2] == ""
+
+
+def _perm_of(a, b):
+    return sorted(map(repr, a)) == sorted(map(repr, b))
+
+
+def run_history(flavour, order, md, steps):
+    """run the steps on a fresh enforcer; returns the list of ask records
+       dict(i, entry, ctx, reqs, enabled, ptype, effect, stored, grouping, obs, explain_rules, premise)"""
+    from casbin.rbac.default_role_manager import RoleManager
+    e = build_enforcer(flavour, order, md)
+    expected = {"p": [], "p2": [], "g": []}
+    stored = {"p": [], "p2": [], "g": []}
+    enabled = True
+    premise = None
+    asks = []
+
+    def snap(pt):
+        nonlocal premise
+        if pt == "g":
+            stored["g"] = [list(r) for r in e.get_grouping_policy()]
+        else:
+            stored[pt] = [list(r) for r in e.get_named_policy(pt)]
+        ok = _perm_of(stored[pt], expected[pt]) if (flavour == "FastEnforcer" and order and pt == "p") else stored[pt] == expected[pt]
+        if not ok and premise is None:
+            premise = f"after step {i} the stored {pt} rules {stored[pt]} are not the rules put there {expected[pt]}"
+            stored[pt] = [list(r) for r in expected[pt]]
+
+    for i, st in enumerate(steps):
+        op = st[0]
+        if op == "add":
+            e.add_named_policy(st[1], *st[2])
+            if list(st[2]) not in expected[st[1]]:
+                expected[st[1]].append(list(st[2]))
+            snap(st[1])
+        elif op == "remove":
+            e.remove_named_policy(st[1], *st[2])
+            if list(st[2]) in expected[st[1]]:
+                expected[st[1]].remove(list(st[2]))
+            snap(st[1])
+        elif op == "clear":
+            e.clear_policy()
+            expected = {"p": [], "p2": [], "g": []}
+            snap("p")
+            if md["kind"] == "two":
+                snap("p2")
+            if md["kind"] == "rbac":
+                snap("g")
+        elif op == "enable":
+            e.enable_enforce(bool(st[1]))
+            enabled = bool(st[1])
+        elif op == "add_g":
+            e.add_grouping_policy(*st[1])
+            if list(st[1]) not in expected["g"]:
+                expected["g"].append(list(st[1]))
+            snap("g")
+        elif op == "remove_g":
+            e.remove_grouping_policy(*st[1])
+            if list(st[1]) in expected["g"]:
+                expected["g"].remove(list(st[1]))
+            snap("g")
+        elif op == "swap_rm":
+            e.set_role_manager(RoleManager(10))
+            e.build_role_links()
+        elif op == "build_links":
+            e.build_role_links()
+        elif op == "ask":
+            entry, ctx, reqs = st[1], st[2], [tuple(r) for r in st[3]]
+            ptype = ctx["p"] if ctx else "p"
+            effect = md["effect2"] if (ctx and ctx["e"] == "e2") else md["effect"]
+
+            def args(r):
+                if not ctx:
+                    return r
+                c = e.new_enforce_context("2") if hasattr(e, "new_enforce_context") else casbin.EnforceContext("r2", "p2", "e2", "m2")
+                c.rtype, c.ptype, c.etype, c.mtype = ctx["r"], ctx["p"], ctx["e"], ctx["m"]
+                return (c,) + r
+            expl = None
+            try:
+                if entry == "enforce_ex":
+                    d, ex = e.enforce_ex(*args(reqs[0]))
+                    if ex:
+                        idx = [k for k, r in enumerate(stored[ptype]) if r == list(ex)]
+                        obs = [0, [int(bool(d)), [idx[0]] if idx else [99999]]]
+                        expl = list(ex)
+                    else:
+                        obs = [0, [int(bool(d)), []]]
+                elif entry == "enforce":
+                    obs = [0, int(bool(e.enforce(*args(reqs[0]))))]
+                else:
+                    obs = [0, [int(bool(x)) for x in e.batch_enforce([list(args(r)) for r in reqs])]]
+            except Exception as exc:  # noqa
+                obs = [999, classify_exception(exc)]
+            asks.append(dict(i=i, entry=entry, ctx=ctx, reqs=[list(r) for r in reqs], enabled=enabled, ptype=ptype,
+                             effect=effect, stored=[list(r) for r in stored[ptype]], grouping=[list(r) for r in stored["g"]],
+                             obs=obs, explain_rule=expl))
+        else:
+            raise ValueError(f"unknown step {st!r}")
+    return asks, premise
+
+
+def ask_queries(md, a):
+    """oracle requests (model tag 1, spec tag 2) for every request of one ask record, plus the side data the spec
+    clauses stated in Python need: list of (model_req, spec_req, eidx, outs, arity_ok, em)"""
+    eidx = dict(EFFECTS)[a["effect"]]
+    out = []
+    for r in a["reqs"]:
+        arity_ok = len(r) == 3
+        outs = [rule_outcome(rule, r, md, a["grouping"]) if arity_ok else NOMATCH for rule in a["stored"]]
+        em = empty_match(r, md) if not a["stored"] else False
+        out.append(((1, [a["effect"], a["enabled"], arity_ok, outs, em]), (2, [eidx, outs]), eidx, outs, arity_ok, em))
+    return out
